@@ -127,7 +127,25 @@ fn two_test(c: &TwoCase, obs: &mut Obs) -> CheckResult {
     let mut b_cfg = a.clone();
     b_cfg.trace_id = b_id;
     // two tracers with the same target are only distinguishable for ICMP (trace identifier)
-    b_cfg.target_idx = if c.same_target && a.protocol == Proto::Icmp { 0 } else { 1 };
+    b_cfg.target_idx = if c.same_target { 0 } else { 1 };
+    if c.same_target && a.protocol != Proto::Icmp {
+        // UDP / TCP tracers with the same target are told apart by their fixed port(s): B
+        // differs from A in the source port, the destination port, or both
+        let d = c.id_delta;
+        b_cfg.ports = match a.ports {
+            Ports::FixedSrc(s) => Ports::FixedSrc(s.wrapping_add(d)),
+            Ports::FixedDest(p) => Ports::FixedDest(p.wrapping_add(d)),
+            Ports::FixedBoth(s, p) => match d {
+                1 => Ports::FixedBoth(s.wrapping_add(d), p),
+                2 => Ports::FixedBoth(s, p.wrapping_add(d)),
+                _ => Ports::FixedBoth(s.wrapping_add(d), p.wrapping_add(d)),
+            },
+            Ports::None => {
+                b_cfg.target_idx = 1;
+                Ports::None
+            }
+        };
+    }
     let b_log = run_trace_with(&b_cfg, &c.b_world, |w| w.capture = true);
     if b_log.panic.is_some() || b_log.aborted.is_some() || b_log.build_error.is_some() {
         obs.excluded("second tracer did not run");
@@ -153,9 +171,12 @@ fn two_test(c: &TwoCase, obs: &mut Obs) -> CheckResult {
         obs.class("nontrivial");
         let shape: Vec<usize> = truth.rounds.iter().map(Vec::len).collect();
         obs.nontrivial(&(a.cell(), c.same_target, foreign, shape));
+        if b_cfg.target_idx == 0 && a.protocol != Proto::Icmp {
+            obs.class("foreign-read:same-target-other-port");
+        }
     }
     obs.sample(json!({
-        "cfg": a.cell(), "a_id": a.trace_id, "b_id": b_id, "same_target": b_cfg.target_idx == 0,
+        "cfg": a.cell(), "a_id": a.trace_id, "b_id": b_id, "same_target": b_cfg.target_idx == 0, "b_ports": format!("{:?}", b_cfg.ports),
         "foreign_packets_read": foreign, "foreign_packets_offered": world.raw.len(),
     }));
     Ok(())
